@@ -42,6 +42,9 @@ type Desc struct {
 	// OnClose: the driver carries on-close hooks (generic and network level) that write "exit" and a
 	// return to the channel, as the shipped platform definitions do.
 	OnClose bool `json:"on_close,omitempty"`
+	// LogSinkFails: the session has a channel log whose sink starts failing (0 bytes taken, error)
+	// once the session is up.
+	LogSinkFails bool `json:"log_sink_fails,omitempty"`
 	// OnCloseFails: the on-close hooks return an error after doing their writes.
 	OnCloseFails bool `json:"on_close_fails,omitempty"`
 	// OpenFails: the transport refuses the connection this many times before the open that succeeds
@@ -207,6 +210,21 @@ func runSession(d Desc) mon.Result {
 	return mon.Result{Verdict: mon.Held, NonTrivial: true, Obs: map[string]int64{"sessions_under_race_detector": 1, "yield_hits": int64(ct.stats().hits)}}
 }
 
+// failingSink is a channel-log sink that, once told to, takes no bytes and returns an error (a log
+// file closed before the driver, a full disk).
+type failingSink struct {
+	fail atomic.Bool
+	n    atomic.Int64
+}
+
+func (f *failingSink) Write(b []byte) (int, error) {
+	if f.fail.Load() {
+		return 0, os.ErrClosed
+	}
+	f.n.Add(int64(len(b)))
+	return len(b), nil
+}
+
 func runClose(d Desc) mon.Result {
 	t00 := time.Now()
 	sc := scenarioFor(d.Driver)
@@ -245,6 +263,10 @@ func runClose(d Desc) mon.Result {
 			}))
 		}
 	}
+	sink := &failingSink{}
+	if d.LogSinkFails {
+		extra = append(extra, options.WithChannelLog(sink))
+	}
 	s, err := sc.New(cfg, 3*time.Second, extra...)
 	if err != nil {
 		return mon.Result{Verdict: mon.Inconclusive, Detail: "constructor: " + err.Error()}
@@ -270,6 +292,7 @@ func runClose(d Desc) mon.Result {
 		return mon.Result{Verdict: mon.Inconclusive, Detail: "open failed on a healthy connection: " + err.Error()}
 	}
 	s.Quiesce(3 * time.Second)
+	sink.fail.Store(true)
 	var gen int
 	s.Conn.Do(func() { gen = s.Conn.Generated() })
 	closeFn := func() error {
@@ -333,10 +356,19 @@ func runClose(d Desc) mon.Result {
 		if !waitReadErr() {
 			return mon.Result{Verdict: mon.Inconclusive, Detail: "reader did not reach the error"}
 		}
-		for i := 0; i < 12; i++ {
+		for i := 0; i < 14; i++ {
+			n0 := s.Conn.ReadErrs()
 			later()
-			time.Sleep(time.Duration(d.ReadDelay+50) * time.Microsecond)
+			// the next operation starts once the read loop has met the failing transport again (so
+			// that every operation is handed an error of its own by the loop)
+			dl := time.Now().Add(3 * time.Second)
+			for s.Conn.ReadErrs() == n0 && time.Now().Before(dl) {
+				time.Sleep(100 * time.Microsecond)
+			}
 		}
+		// and one more, with Close following at once: the loop has just handed an error over and is in
+		// whatever pause it takes before it looks at the transport again
+		later()
 	case "err-consumed":
 		s.Conn.SetFault(devsim.FaultErr, gen)
 		if !waitReadErr() {
@@ -500,6 +532,9 @@ func runClose(d Desc) mon.Result {
 	if d.OnCloseFails {
 		obs["closes_with_failing_on_close_hooks"]++
 	}
+	if d.LogSinkFails {
+		obs["closes_with_failing_channel_log_sink"]++
+	}
 	tags := []string{"driver=" + d.Driver, "state=" + d.State, "close=" + d.CloseB, fmt.Sprintf("readdelay=%d", d.ReadDelay), "order:" + sig}
 	if d.A != "" {
 		if cst.infeasible {
@@ -574,7 +609,7 @@ func gen(tier string, seed int64) []mon.Case {
 	n := 0
 	add := func(d Desc) {
 		d.Seed = seed*100003 + int64(n)
-		cs = append(cs, mon.MkCase(fmt.Sprintf("c07/%05d-%s-%s-%s-rd%d%s%s", n, d.Driver, d.State, d.CloseB, d.ReadDelay, map[bool]string{true: "-alive"}[d.AliveTracks], map[bool]string{true: fmt.Sprintf("-refused%d", d.OpenFails)}[d.OpenFails > 0]+map[bool]string{true: "-hookfails"}[d.OnCloseFails]), d))
+		cs = append(cs, mon.MkCase(fmt.Sprintf("c07/%05d-%s-%s-%s-rd%d%s%s", n, d.Driver, d.State, d.CloseB, d.ReadDelay, map[bool]string{true: "-alive"}[d.AliveTracks], map[bool]string{true: fmt.Sprintf("-refused%d", d.OpenFails)}[d.OpenFails > 0]+map[bool]string{true: "-hookfails"}[d.OnCloseFails]+map[bool]string{true: "-logsinkfails"}[d.LogSinkFails]), d))
 		n++
 	}
 	drivers := []string{"generic", "network", "netconf"}
@@ -595,6 +630,10 @@ func gen(tier string, seed int64) []mon.Case {
 							// a hook that fails must not keep Close from closing
 							add(Desc{Kind: "close", Driver: dr, State: st, CloseB: cb, ReadDelay: rd, OnClose: true, OnCloseFails: true})
 						}
+					}
+					if rd == 250 && cb != "blocked" && (st == "data-arriving" || st == "idle-blocked" || st == "op-in-flight" || st == "error-arriving") {
+						// a channel log whose sink has gone away while data keeps arriving
+						add(Desc{Kind: "close", Driver: dr, State: st, CloseB: cb, ReadDelay: rd, LogSinkFails: true})
 					}
 					if rd == 250 && cb != "blocked" && (st == "idle-blocked" || st == "peer-closed-unnoticed" || st == "err-parked" || st == "op-in-flight" || st == "second-close") {
 						// "after a successful open" that was preceded by refused attempts on the same object
@@ -673,7 +712,7 @@ func gen(tier string, seed int64) []mon.Case {
 		add(d)
 	}
 	for _, sc := range scen.All() {
-		if tier == "thorough" || sc.Quick {
+		if !sc.LossOnly && (tier == "thorough" || sc.Quick) {
 			add(Desc{Kind: "session", Driver: sc.Driver, State: "scenario", Scenario: sc.Name})
 		}
 	}
